@@ -290,4 +290,45 @@ func init() {
 			return jobs
 		},
 	})
+	protoCfg := func(i int) StoreCfg {
+		return StoreCfg{NumBucket: 16, Served: nil, TreeHeight: 3, DataFileMax: int64([]int{4000 << 12, 64}[i%2]) * 256, SplitCap: 1 << 20, IndexInterval: 4096, BodyInC: int64([]int{0, 4096}[(i/2)%2]), BodyMax: 1 << 20}
+	}
+	register(&PropSpec{
+		ID: "C11", Level: "exploration",
+		Rule:        "the real per-connection server loop (memcache.ServerConn.Serve) backed by the real StorageClient/HStore on an instrumented in-memory connection that knows when the server is blocked reading an empty input (logical quiescence, no timeouts). Grammar workload: pipelined streams of well-formed commands (get/gets with 1..6 keys and duplicates, set/add/replace/cas with binary bodies containing CR/LF/NUL, delete, incr, noreply variants, stats, version, verbosity, flush_all, '@' paths of length 0..40, '?'/'??' keys, '@@' hashes, over-long keys, unknown verbs, append/prepend/decr/quit) written in chunkings from 1 byte to everything at once; strict oracle: exactly one syntactically valid reply per command in order (independent reply parser), none for noreply, values and flags equal to the reference map, nothing extra. Mutated workload (truncation at a random byte, bit flips, dropped terminators, bad numbers, long lines, random bytes, body cut short, wrong byte counts) with the weaker oracle: server alive, output syntactically valid, server goroutine returns after the client goes away, a fresh connection works. distinct = (command class x reply kind), mutation kinds, stress shapes",
+		Assumptions: []string{"timeout_ms is raised so that the server's own wall-clock RECV/PROCESS_TIMEOUT replies cannot fire on a loaded machine", "an in-memory net.Conn replaces the TCP socket; accept loop and signal handling are not exercised"},
+		Keep:        func(sig string) bool { return !strings.HasPrefix(sig, "c12:") },
+		Plan: func(tier string, seed uint64) []Job {
+			var jobs []Job
+			n, streams, mutated := 8, 30, 300
+			if tier == "thorough" {
+				n, streams, mutated = 28, 300, 8000
+			}
+			for i := 0; i < n; i++ {
+				jobs = append(jobs, Job{Variant: "plain", Mode: "db.proto", Args: js(map[string]interface{}{"Cfg": protoCfg(i), "Prop": "c11", "Streams": streams, "Cmds": 40, "Mutated": mutated, "Conns": 4, "OOM": i == 1})})
+			}
+			jobs = append(jobs, Job{Variant: "asan", Mode: "db.proto", Args: js(map[string]interface{}{"Cfg": protoCfg(0), "Prop": "c11", "Streams": streams / 3, "Cmds": 40, "Mutated": mutated / 3, "Conns": 4})})
+			jobs = append(jobs, Job{Variant: "plain", Mode: "mc.roundtrip", Args: js(map[string]interface{}{"Cases": mutated * 10})})
+			return jobs
+		},
+	})
+	register(&PropSpec{
+		ID: "C12", Level: "exploration",
+		Rule:        "same server harness as C11. Observed state: cmem.DBRL (GetData, SetData, FlushData, AllocRL: count and size), request tokens available vs capacity, and a registry of live C blocks fed by the cmem alloc/free hooks (detects leak, double free, free of an unknown block; poisons on free). Attribution mode: one command at a time on one connection; after each command the harness waits for logical quiescence (server blocked in Read, buffers flushed, background goroutines done) and asserts that all numbers are zero / all tokens back; a non-zero delta is attributed to that command's class (verb x key state {miss, hit, hit-counter, tombstone, value above/below the C-allocation threshold} x noreply). The same assertion after every mutated stream (error stages: bad header, bad numbers, oversize, short body, bad terminator, connection drop at a random byte) and after concurrent stress on 8 connections (plain, race and asan builds). distinct = attributed command classes + mutation kinds",
+		Assumptions: []string{"quiescence is a logical condition (server goroutine blocked reading an empty input, flush done, hook counters balanced), not a deadline"},
+		Keep:        func(sig string) bool { return !strings.HasPrefix(sig, "c11:") },
+		Plan: func(tier string, seed uint64) []Job {
+			var jobs []Job
+			n, attrib, mutated := 8, 350, 150
+			if tier == "thorough" {
+				n, attrib, mutated = 28, 5000, 3000
+			}
+			for i := 0; i < n; i++ {
+				jobs = append(jobs, Job{Variant: "plain", Mode: "db.proto", Args: js(map[string]interface{}{"Cfg": protoCfg(i), "Prop": "c12", "Streams": 3, "Cmds": 40, "Mutated": mutated, "Attrib": attrib, "Conns": 8})})
+			}
+			jobs = append(jobs, Job{Variant: "race", Mode: "db.proto", Args: js(map[string]interface{}{"Cfg": protoCfg(2), "Prop": "c12", "Streams": 3, "Cmds": 60, "Mutated": 30, "Attrib": 80, "Conns": 8})})
+			jobs = append(jobs, Job{Variant: "asan", Mode: "db.proto", Args: js(map[string]interface{}{"Cfg": protoCfg(2), "Prop": "c12", "Streams": 3, "Cmds": 60, "Mutated": 60, "Attrib": 150, "Conns": 8})})
+			return jobs
+		},
+	})
 }
